@@ -32,7 +32,7 @@ import translate
 translate.GENERATORS.setdefault("Templates", gen_templates.gen_templates)
 
 PROP = "C07"
-LEAN_MODULES = ["IsoDT.Props.C07", "IsoDT.Props.C07b"]
+LEAN_MODULES = ["IsoDT.Props.C07", "IsoDT.Props.C07b", "IsoDT.Props.C07c"]
 TRUSTED_EXTRA = ["harness/gen_templates.py (compiled regexes / _rec_formats -> Gen/Templates.lean); its "
                  "translation is itself differential-tested (op tmatch: Lean matcher vs re.match on the "
                  "same regex objects)"]
